@@ -164,6 +164,11 @@ func init() {
 					emit(pid, pol, []byte("<a href=\""+q+"\">x</a><img src=\""+q+"\"><blockquote cite=\""+q+"\">y</blockquote>"))
 				}
 			}
+			// every pooled rel value where the shipped policy binds a pattern to an attribute the link
+			// options rewrite (rel on area), with and without an href
+			for _, rv := range bmx.RelPool {
+				emit(pid, pol, []byte("<area href=\"/x\" rel=\""+rv+"\"><area rel=\""+rv+"\"><a href=\"http://x.com/\" rel=\""+rv+"\">t</a><map name=\"m\"><area href=\"http://x.com/\" rel=\""+rv+"\" target=\"_blank\"></map>"))
+			}
 		}
 		// which of rel / target / crossorigin the policy lets through by itself × the link options:
 		// what the first pass adds must be what the second pass re-derives
@@ -198,6 +203,8 @@ func init() {
 				}
 			}
 		}
+		sandboxCases(c, emit)
+		directedSchemes(c, emit)
 		// escaping makes tokens grow: very long runs of characters that need escaping, twice
 		for _, name := range []string{"@STRICT", "@UGC"} {
 			pid, pol := c.shipped(name)
@@ -307,6 +314,28 @@ func init() {
 					out = []byte("ERROR " + err.Error())
 				}
 				fmt.Fprintf(c.w, "cmd %d %s %s\n", c.pid, bmx.HexField(in), bmx.HexField(out))
+			}
+			// whatever arrives on stdin, however much: a self-contained unit (judged above through the
+			// model as a document of its own) repeated to 1, 4, 5 and 9 MiB comes out as its result repeated
+			{
+				unit := []byte("<p>para <b>bold</b> &amp; <a href=\"http://example.com/\">link</a></p>\n")
+				one := func(in []byte) []byte {
+					cmd := exec.Command(bin)
+					cmd.Stdin = bytes.NewReader(in)
+					out, err := cmd.Output()
+					if err != nil {
+						return []byte("ERROR " + err.Error())
+					}
+					return out
+				}
+				uo := one(unit)
+				fmt.Fprintf(c.w, "cmd %d %s %s\n", c.pid, bmx.HexField(unit), bmx.HexField(uo))
+				for _, total := range []int{1 << 20, 4<<20 - len(unit), 4 << 20, 5 << 20, 9 << 20} {
+					k := total/len(unit) + 1
+					in := bytes.Repeat(unit, k)
+					ok := bytes.Equal(one(in), bytes.Repeat(uo, k))
+					fmt.Fprintf(c.w, "big %d %d %s\n", c.pid, len(in), b01(ok))
+				}
 			}
 		}
 	}
@@ -503,6 +532,7 @@ func init() {
 			ops = append(ops, &bmx.Op{Kind: "AA", Names: []string{"title"}, Re: bmx.NewRE(`^d+$`), Scope: "M", ScopeRe: bmx.NewRE(`-x$`)},
 				&bmx.Op{Kind: "AA", Names: []string{"title"}, Re: bmx.NewRE(`^e+$`), Scope: "M", ScopeRe: bmx.NewRE(`^w-.*-x$`)})
 			pid, pol := c.policy(ops)
+			dumpFinished := pol.VerifDump(bmx.RegexNamer(ops))
 			g := bmx.NewDocGen(c.r, ops)
 			// calls that fail part-way (inside open skip-content / dropped elements) come first:
 			// they must leave nothing behind
@@ -529,6 +559,18 @@ func init() {
 				}
 				seq[k] = pol.Sanitize(string(inputs[k]))
 			}
+			// before any goroutine is started: the same calls once more give the same results, and the
+			// policy reads as it did when it was finished (written out at once — a policy that grows with
+			// use may not leave the concurrent phase)
+			for k := range inputs {
+				again := pol.Sanitize(string(inputs[k]))
+				fmt.Fprintf(c.w, "conc %d %s %s %s\n", pid, bmx.HexField(inputs[k]), bmx.HexS(seq[k]), b01(again == seq[k]))
+			}
+			c.pid++
+			dumpUsed := pol.VerifDump(bmx.RegexNamer(ops))
+			fmt.Fprintf(c.w, "policy %d %s %s\n", c.pid, bmx.EncodeOps(ops), bmx.HexS(dumpUsed))
+			fmt.Fprintf(c.w, "unchanged %d %s %s %s\n", pid, bmx.HexS(dumpFinished), bmx.HexS(dumpUsed), b01(dumpUsed == dumpFinished))
+			c.w.Flush()
 			const G = 12
 			equal := make([]bool, len(inputs))
 			for k := range equal {
@@ -565,11 +607,75 @@ func init() {
 			dumpAfter := pol.VerifDump(bmx.RegexNamer(ops))
 			c.pid++
 			fmt.Fprintf(c.w, "policy %d %s %s\n", c.pid, bmx.EncodeOps(ops), bmx.HexS(dumpAfter)) // the policy is unchanged by use
+			fmt.Fprintf(c.w, "unchanged %d %s %s %s\n", pid, bmx.HexS(dumpFinished), bmx.HexS(dumpAfter), b01(dumpAfter == dumpFinished))
 			for k := range inputs {
 				fmt.Fprintf(c.w, "conc %d %s %s %s\n", pid, bmx.HexField(inputs[k]), bmx.HexS(seq[k]), b01(equal[k]))
 				i++
 			}
 		}
+	}
+
+	// C13: the CSS handlers are shared by every policy and every goroutine: each default handler, on
+	// values it accepts and values it rejects, decides concurrently what it decides alone
+	concCSS := func(c *ctx) {
+		g := bmx.NewCSSGen(c.r, c.work)
+		ops := []*bmx.Op{{Kind: "AE", Names: []string{"b"}}, {Kind: "AA", Names: []string{"style"}, Scope: "G"}, {Kind: "AS", Names: g.Props, Scope: "G"}}
+		pid, pol := c.policy(ops)
+		all := append(append([]string{}, bmx.CSSValuePool...), g.Vocab...)
+		var inputs [][]byte
+		for _, prop := range g.Props {
+			h := cssGetDefault(prop)
+			nacc, nrej := 0, 0
+			for _, k := range c.r.Perm(len(all)) {
+				v := all[k]
+				if strings.ContainsAny(v, "\"<>&;") {
+					continue
+				}
+				ok := safeHandler(h, v) == "1"
+				if ok && nacc < 5 {
+					nacc++
+				} else if !ok && nrej < 3 {
+					nrej++
+				} else {
+					continue
+				}
+				inputs = append(inputs, []byte("<b style=\""+prop+": "+v+"\">t</b>"))
+			}
+		}
+		seq := make([]string, len(inputs))
+		for k := range inputs {
+			seq[k] = pol.Sanitize(string(inputs[k]))
+		}
+		equal := make([]bool, len(inputs))
+		for k := range equal {
+			equal[k] = true
+		}
+		var mu sync.Mutex
+		var wg sync.WaitGroup
+		for gi := 0; gi < 12; gi++ {
+			wg.Add(1)
+			go func(gi int) {
+				defer wg.Done()
+				for k := range inputs {
+					kk := (k*(2*gi+1) + gi*97) % len(inputs)
+					if pol.Sanitize(string(inputs[kk])) != seq[kk] {
+						mu.Lock()
+						equal[kk] = false
+						mu.Unlock()
+					}
+				}
+			}(gi)
+		}
+		wg.Wait()
+		for k := range inputs {
+			fmt.Fprintf(c.w, "conc %d %s %s %s\n", pid, bmx.HexField(inputs[k]), bmx.HexS(seq[k]), b01(equal[k]))
+		}
+		c.stat("conc_css_inputs", len(inputs))
+	}
+	concPlain := families["conc"]
+	families["conc"] = func(c *ctx) {
+		concPlain(c)
+		concCSS(c)
 	}
 
 	// C14: wall clock on size-parameterised adversarial families (the model side checks panics)
